@@ -88,6 +88,7 @@ def run(ctx, spec):
                         samples=samples, counters=counters, generator=stats,
                         structural_agreement=(counters["code_drift"] == 0))
     S.report(ctx, mism)
+    S.report_drift(ctx, counters)
 
 
 PROPS = {"C13": dict(
